@@ -173,7 +173,7 @@ pub fn run(r: &Run) {
     r.prop("subscribe-histories", r.tier.pick(150_000, 4_000_000), || arb_case(r.tier.pick(14, 24)), check);
     r.prop("peer-pairing", r.tier.pick(20_000, 300_000), || proptest::collection::vec((0u8..N_PEERS, any::<bool>()), 0..16).prop_map(|events| PairCase { events }), check_pairing);
     r.assume(super::c18e::RULE);
-    r.prop("bmp-station", r.tier.pick(2_500, 80_000), || super::c18e::arb_case(r.tier.pick(16, 28)), super::c18e::check);
+    r.slow(|| r.prop("bmp-station", r.tier.pick(2_500, 80_000), || super::c18e::arb_case(r.tier.pick(16, 28)), super::c18e::check));
 }
 
 pub fn replay(sub: &str, case: &Value) -> Result<CheckResult, String> {
